@@ -140,6 +140,17 @@ impl Shred {
         )
     }
 
+    /// Whether this shred's type is the one a shredder producing `data_output_shreds`
+    /// data shreds assigns to its shred index.
+    ///
+    /// The type is covered by neither the slice signature nor the Merkle proof,
+    /// so it can be altered in transit without invalidating the shred.
+    #[must_use]
+    pub fn has_expected_type(&self, data_output_shreds: usize) -> bool {
+        let is_data = matches!(self.payload_type, ShredPayloadType::Data(_));
+        is_data == (*self.payload().shred_index < data_output_shreds)
+    }
+
     /// References the payload contained in this shred.
     pub const fn payload(&self) -> &ShredPayload {
         match &self.payload_type {
